@@ -621,9 +621,9 @@ Proof.
   intros E N. destruct (first_parked_some _ _ _ _ E) as (x & N' & P & _). rewrite Nat.sub_0_r in N'. congruence.
 Qed.
 
-Lemma sched_step_inv cfg cfg' : CInv cfg -> sched_step cfg = Some cfg' -> CInv cfg'.
+Lemma sched_step0_inv cfg cfg' : CInv cfg -> sched_step0 cfg = Some cfg' -> CInv cfg'.
 Proof.
-  intros HC. unfold sched_step. destruct (dead cfg); [discriminate|].
+  intros HC. unfold sched_step0. destruct (dead cfg); [discriminate|].
   destruct (next_from_schedule cfg (sched cfg)) as [pick rest].
   assert (HC1 : CInv (mkCfg (shs cfg) (ths cfg) rest false)) by (destruct cfg; eapply CInv_irrel; exact HC).
   set (cfg1 := mkCfg (shs cfg) (ths cfg) rest false) in *.
@@ -645,6 +645,39 @@ Proof.
       destruct (th_enabled cfg2 w); intros E; injection E as <-; [apply perform_inv|]; exact HC2.
     + destruct (all_finished cfg1); [discriminate|]. intros E. injection E as <-.
       destruct HC1 as [HS HF]. split; [|exact HF]. cbn [shs ths]. eapply SInv_ledger_eq; [|exact HS]. repeat split.
+Qed.
+
+(* a wait that ends without a notification (timeout at any moment, spurious wake-up) *)
+Lemma unnotified_inv cfg tok c : CInv cfg -> unnotified cfg tok = Some c -> CInv c.
+Proof.
+  intros [HS HF] H. unfold unnotified in H.
+  destruct (Nat.leb 2000 tok).
+  - destruct (nth_error (ths cfg) (tok - 2000)) as [wt|] eqn:EN; [|discriminate].
+    pose proof (proj1 (Forall_forall _ _) HF wt (nth_error_In _ _ EN)) as HW. unfold th_wp in HW.
+    destruct (status wt) as [|timed| |] eqn:Est; try discriminate. injection H as <-.
+    destruct (CInv_replace (shs cfg) (ths cfg) (tok - 2000) wt (shs cfg)
+                           (mkTh (code wt) (calls wt) (lo_to (lo wt) false) TWoken) HS HF EN) as [A B].
+    + intros oth Ho. cbn [lo]. rewrite inflight_lo_to. exact Ho.
+    + unfold th_wp. cbn [status code lo]. apply HW.
+    + split; assumption.
+  - destruct (Nat.leb 1000 tok); [|discriminate].
+    destruct (nth_error (ths cfg) (tok - 1000)) as [wt|] eqn:EN; [|discriminate].
+    pose proof (proj1 (Forall_forall _ _) HF wt (nth_error_In _ _ EN)) as HW. unfold th_wp in HW.
+    destruct (status wt) as [|timed| |] eqn:Est; try discriminate. destruct timed; [|discriminate]. injection H as <-.
+    destruct (CInv_replace (shs cfg) (ths cfg) (tok - 1000) wt (sh_log (shs cfg) (CTimeout (tok - 1000)))
+                           (mkTh (code wt) (calls wt) (lo_to (lo wt) true) TWoken) HS HF EN) as [A B].
+    + intros oth Ho. cbn [lo]. rewrite inflight_lo_to. eapply SInv_ledger_eq; [|exact Ho]. repeat split.
+    + unfold th_wp. cbn [status code lo]. apply HW.
+    + split; assumption.
+Qed.
+
+Lemma sched_step_inv cfg cfg' : CInv cfg -> sched_step cfg = Some cfg' -> CInv cfg'.
+Proof.
+  intros HC. unfold sched_step. destruct (dead cfg) eqn:Ed; [discriminate|].
+  assert (H0 : sched_step0 cfg = Some cfg' -> CInv cfg') by (apply sched_step0_inv; exact HC).
+  destruct (sched cfg) as [|tok rest]; [exact H0|].
+  destruct (unnotified _ tok) as [c|] eqn:EU; [|exact H0].
+  intros E. injection E as <-. eapply unnotified_inv; [|exact EU]. destruct cfg; eapply CInv_irrel; exact HC.
 Qed.
 
 Lemma run_sched_inv fuel : forall cfg, CInv cfg -> CInv (run_sched fuel cfg).
@@ -931,9 +964,9 @@ Proof.
     exact (perform_pd_finish fuel cfg t th k _ (mkTh (code th) (calls th) (lo th) TRun) k (ths cfg) HP HN Hk eq_refl Hk Hc HW).
 Qed.
 
-Lemma sched_step_pd cfg cfg' : CInv cfg -> PInv cfg -> sched_step cfg = Some cfg' -> PInv cfg'.
+Lemma sched_step0_pd cfg cfg' : CInv cfg -> PInv cfg -> sched_step0 cfg = Some cfg' -> PInv cfg'.
 Proof.
-  intros HC HP. unfold sched_step. destruct (dead cfg); [discriminate|].
+  intros HC HP. unfold sched_step0. destruct (dead cfg); [discriminate|].
   destruct (next_from_schedule cfg (sched cfg)) as [pick rest].
   assert (HC1 : CInv (mkCfg (shs cfg) (ths cfg) rest false)) by (destruct cfg; eapply CInv_irrel; exact HC).
   assert (HP1 : PInv (mkCfg (shs cfg) (ths cfg) rest false)) by exact HP.
@@ -958,6 +991,28 @@ Proof.
         - split; assumption. }
       destruct (th_enabled cfg2 w); intros E; injection E as <-; [apply perform_pd|]; assumption.
     + destruct (all_finished cfg1); [discriminate|]. intros E. injection E as <-. exact HP1.
+Qed.
+
+Lemma unnotified_pd cfg tok c : PInv cfg -> unnotified cfg tok = Some c -> PInv c.
+Proof.
+  intros HP H. unfold unnotified in H.
+  destruct (Nat.leb 2000 tok).
+  - destruct (nth_error (ths cfg) (tok - 2000)) as [wt|] eqn:EN; [|discriminate].
+    destruct (status wt) as [|timed| |] eqn:Est; try discriminate. injection H as <-.
+    unfold PInv. cbn [shs ths]. rewrite (sum_pd_map_code _ (ths cfg)); [exact HP|]. eapply set_th_same_code; eauto.
+  - destruct (Nat.leb 1000 tok); [|discriminate].
+    destruct (nth_error (ths cfg) (tok - 1000)) as [wt|] eqn:EN; [|discriminate].
+    destruct (status wt) as [|timed| |] eqn:Est; try discriminate. destruct timed; [|discriminate]. injection H as <-.
+    unfold PInv. cbn [shs ths cec sh_log]. rewrite (sum_pd_map_code _ (ths cfg)); [exact HP|]. eapply set_th_same_code; eauto.
+Qed.
+
+Lemma sched_step_pd cfg cfg' : CInv cfg -> PInv cfg -> sched_step cfg = Some cfg' -> PInv cfg'.
+Proof.
+  intros HC HP. unfold sched_step. destruct (dead cfg) eqn:Ed; [discriminate|].
+  assert (H0 : sched_step0 cfg = Some cfg' -> PInv cfg') by (apply sched_step0_pd; assumption).
+  destruct (sched cfg) as [|tok rest]; [exact H0|].
+  destruct (unnotified _ tok) as [c|] eqn:EU; [|exact H0].
+  intros E. injection E as <-. eapply unnotified_pd; [|exact EU]. exact HP.
 Qed.
 
 Lemma run_sched_pd fuel : forall cfg, CInv cfg -> PInv cfg -> PInv (run_sched fuel cfg).
